@@ -74,6 +74,7 @@ def run(ctx, clauses=CLAUSES, prop_note=None):
                 "n_sols": len(results[0][2][0]["sols"])})
     ctx.sample({"engine": "E2/E3-trace", "event": results[-1][2][0]})
     sc.validate(ctx, results, clauses)
+    sc.replay_known(ctx, ('ord',), clauses)
     ctx.stage("trace validation")
 
 
